@@ -5,6 +5,8 @@ from . import tlc
 from .common import EXACT_EMBS, DEC_EMBS, EXTREME_EMBS, unfl, run_driver_parallel
 from .fix import fix
 
+# narrow and unsigned integer dtypes a diagram may legitimately arrive in (value ranges)
+NARROW = {"uint8": (0, 255), "int8": (-128, 127), "uint16": (0, 65535), "int16": (-32768, 32767), "int32": (-2 ** 31, 2 ** 31 - 1), "uint32": (0, 2 ** 32 - 1)}
 FNMAP = {"bott": "bottleneck", "wass": "wasserstein", "heat": "heat", "sw": "sliced"}
 
 
@@ -62,6 +64,48 @@ def make_session(rng, nmin, nmax, tmax, neg=False, with_empty=True, nbase=3, far
     return S
 
 
+def representable(sp, kind):
+    e = sp["emb"]
+    vals = [e.f(v) for d in sp["session"] for p in d for v in p]
+    if kind in (None, "array", "list", "float32"):
+        return True
+    if not all(float(v).is_integer() for v in vals):
+        return False
+    if kind in ("int", "intlist"):
+        return all(abs(v) < 2 ** 52 for v in vals)
+    lo, hi = NARROW[kind]
+    if kind.startswith("u"):          # (an unsigned session is lifted above zero first)
+        span = (max(vals) - min(vals)) if vals else 0
+        return span <= hi and (not vals or max(vals) - min(min(vals), 0) <= hi)
+    return all(lo <= v <= hi for v in vals)
+
+
+def pick_container(rng, sp, kinds):
+    """one of `kinds` that can hold this session under its embedding (integer kinds need integer-valued coordinates in range)"""
+    ok = [k for k in kinds if representable(sp, k)]
+    narrow = [k for k in ok if k in NARROW]
+    if narrow and rng.random() < 0.6:       # integer-valued sessions are rare among the embeddings: use them for the narrow dtypes
+        uns = [k for k in narrow if k.startswith("u")]
+        return rng.choice(uns) if uns and rng.random() < 0.5 else rng.choice(narrow)
+    return rng.choice(ok) if ok else None
+
+
+def lift_for_unsigned(sp):
+    """a session that is to be handed over in an UNSIGNED dtype is translated along the diagonal until every coordinate is >= 0 (ticks and
+    embedded values alike); the specification discovers the relations between the diagrams from the diagrams themselves"""
+    if sp.get("container") not in ("uint8", "uint16", "uint32"):
+        return
+    e = sp["emb"]
+    vals = [v for d in sp["session"] for p in d for v in p]
+    if not vals or e.s <= 0:
+        return
+    need = 0
+    while min(e.f(v + need) for v in vals) < 0 and need < 10 ** 6:
+        need += 1 + need
+    if need:
+        sp["session"] = [[[b + need, d + need] for b, d in dg] for dg in sp["session"]]
+
+
 def observe(session, fn, emb, nproc, sigma_t=None, M=None, hashseeds=(0,), container=None):
     jobs = []
     n = len(session)
@@ -70,6 +114,10 @@ def observe(session, fn, emb, nproc, sigma_t=None, M=None, hashseeds=(0,), conta
         D = [[[emb.f(b), emb.f(d)] for b, d in dg] for dg in session]
         if container in ("int", "intlist") and not all(float(v).is_integer() and abs(v) < 2 ** 52 for dg in D for p in dg for v in p):
             container = "array"
+        if container in NARROW:
+            lo, hi = NARROW[container]
+            if not all(float(v).is_integer() and lo <= v <= hi for dg in D for p in dg for v in p):
+                container = "array"
         return [dict(fn="session", dist=FNMAP[fn], D=D, container=container, M=M, sigma=sf, _n=n * n)]
     for i in range(n):
         for j in range(n):
@@ -109,6 +157,7 @@ def run_sessions(ctx, specs, label, owner_clause=lambda cl: True, nproc=12):
     # round is judged as a session of its own (the twin spec) on the doubled diagrams
     expanded = []
     for sp in specs:
+        lift_for_unsigned(sp)
         expanded.append(sp)
         if sp.get("container") and sp.get("edit"):
             tw = {k: v for k, v in sp.items() if k != "edit"}
